@@ -248,8 +248,8 @@ func c20RoundTrip(t *testing.T, rec *ev.Rec, round int, queries []c20Query) {
 	c.App.EsmKeeper.SetParams(c.Ctx(), esmtypes.Params{Admin: []string{admin.Addr.String()}})
 	for i, app := range u.cdpApps {
 		for _, on := range []bool{true, false} {
-			if !on && i == 1 && variant%2 == 0 {
-				continue // stays on
+			if !on && variant%2 == 0 && i == (variant/2)%2 {
+				continue // stays on (the app with the lower id in one round, the one with the higher id in the next)
 			}
 			res := r.tx("kill_switch", admin, &esmtypes.MsgKillRequest{From: admin.Addr.String(), KillSwitchParams: &esmtypes.KillSwitchParams{AppId: app, BreakerEnable: on}}, fmt.Sprintf("app=%d on=%v", app, on))
 			if res.OK() {
